@@ -552,7 +552,7 @@ def _syms(v: Value) -> set:
 
 def _canon(v: Value) -> Value:
     """Rename opaque (fresh) symbols by order so that equal-shaped results of different paths compare equal."""
-    fr = sorted((s for s in _syms(v) if "#" in s.name), key=lambda s: int(s.name.split("#")[1]) if s.name.split("#")[1].isdigit() else 0)
+    fr = sorted((s for s in _syms(v) if "#" in s.name and not s.name.startswith("choice")), key=lambda s: int(s.name.split("#")[1]) if s.name.split("#")[1].isdigit() else 0)
     m = {s: sp.Symbol(f"{s.name.split('#')[0]}#c{i}", integer=True, nonnegative=True) for i, s in enumerate(fr)}
     return _subst(v, m)
 
@@ -584,12 +584,28 @@ def _same(a: Value, b: Value) -> bool:
     return a == b
 
 
-def _join(vals: List[Value]) -> Value:
-    if all(isinstance(v, Tup) for v in vals) and len({len(v.elts) for v in vals}) == 1:
-        n = len(vals[0].elts)
-        return Tup(tuple(_join([v.elts[i] for v in vals]) if not all(_same(vals[0].elts[i], v.elts[i]) for v in vals[1:])
-                         else vals[0].elts[i] for i in range(n)))
-    if all(isinstance(v, Arr) for v in vals):
+def _join(vals: List[Value], choice=None) -> Value:
+    """Different results on different paths of a callee: keep them as a mix over 0/1 CHOICE symbols
+    (rows = c1*r1 + c2*r2 + ..., exactly one ci is 1); compare_counts tries every choice."""
+    distinct: List[Value] = []
+    for v in vals:
+        if not any(_same(v, d) for d in distinct):
+            distinct.append(v)
+    if len(distinct) == 1:
+        return distinct[0]
+    if len(distinct) > 3:
+        return Arr(None) if all(isinstance(v, Arr) for v in vals) else None
+    if choice is None:
+        k = next(_fresh)
+        choice = [sp.Symbol(f"choice{i}#{k}", integer=True, nonnegative=True) for i in range(len(distinct))]
+    if all(isinstance(v, Tup) for v in distinct) and len({len(v.elts) for v in distinct}) == 1:
+        n = len(distinct[0].elts)
+        return Tup(tuple(_join([v.elts[i] for v in distinct], choice) if not all(_same(distinct[0].elts[i], v.elts[i]) for v in distinct[1:])
+                         else distinct[0].elts[i] for i in range(n)))
+    if all(isinstance(v, Arr) and v.rows is not None for v in distinct) and len(choice) >= len(distinct):
+        rows = sum((c * v.rows for c, v in zip(choice, distinct)), sp.Integer(0))
+        return Arr(rows, distinct[0].cols, distinct[0].ndim)
+    if all(isinstance(v, Arr) for v in distinct):
         return Arr(None)
     return None
 
@@ -598,6 +614,26 @@ def compare_counts(a: Optional[sp.Expr], b: Optional[sp.Expr]) -> Tuple[str, str
     """('EQ'|'NE'|'UNK', reason) for two symbolic row counts."""
     if a is None or b is None:
         return "UNK", "a count is unknown"
+    ch = sorted({s_ for s_ in (a.free_symbols | b.free_symbols) if s_.name.startswith("choice")}, key=lambda s_: s_.name)
+    if ch:
+        # group the choice symbols by their join id; exactly one symbol of each group is 1
+        groups: Dict[str, list] = {}
+        for s_ in ch:
+            groups.setdefault(s_.name.split("#")[1], []).append(s_)
+        import itertools as _it
+        verdicts = []
+        for pick in _it.product(*[range(len(g)) for g in groups.values()]):
+            sub = {}
+            for g, i in zip(groups.values(), pick):
+                for j, s_ in enumerate(g):
+                    sub[s_] = 1 if j == i else 0
+            verdicts.append(compare_counts(sp.simplify(a.subs(sub)), sp.simplify(b.subs(sub))))
+        for v in verdicts:
+            if v[0] == "NE":
+                return "NE", "on one path of a callee: " + v[1]
+        if all(v[0] == "EQ" for v in verdicts):
+            return "EQ", verdicts[0][1]
+        return "UNK", next(v[1] for v in verdicts if v[0] == "UNK")
     d = sp.simplify(a - b)
     if d == 0:
         return "EQ", f"{a}"
